@@ -80,8 +80,8 @@ def run(rep, tier, seed):
     rep.assumptions = ['text codecs of character strings trusted', 'correspondence covers the cases run only']
     g = gen.Gen(rng, max_depth=1)
     from harness import kernels
-    kernels.obligations(rep, ['encodeTag'])
-    kernels.check(rep, drv, seed, 400 if tier == 'quick' else 20000, which=('encodeTag',))
+    kernels.obligations(rep, ['encodeTag', 'encodeLength', 'wrapTags'])
+    kernels.check(rep, drv, seed, 400 if tier == 'quick' else 20000, which=('encodeTag', 'wrapTags'))
 
     # ---- correspondence: identifier octets of single tags, model vs code
     enc = ber_encoder.AbstractItemEncoder()
